@@ -632,7 +632,7 @@ DELAYED = [
 DELAYED.append(
     Harness('callback-send', h_history,
             quick=dict(p=2, concrete='same', events=5, kinds=(SEND, FIRE, RX), nr=True, sessions=1, max_rx=2, dispatch=True, cb_send=True),
-            thorough=dict(p=3, concrete='same', events=6, kinds=(SEND, FIRE, RX, CLOSE, OPEN), nr=True, sessions=2, max_rx=3, dispatch=True,
+            thorough=dict(p=3, concrete='same', events=6, kinds=(SEND, FIRE, RX), nr=True, sessions=1, max_rx=3, max_fire=2, dispatch=True,
                           cb_send=True),
             goals=('request-sent-from-reply-callback', 'retransmitted', 'answered'), timeout=(600, 1800),
             note='packets arrive through the real _IncomingPacketHandler.run; a port callback may issue the same request again from '
